@@ -107,6 +107,8 @@ func inProcess(c *mon.Case) {
 			line = []string{"s", "memory memory", "m memory", "step", "mem nosuch", "ms", "regmod x8"}[r.Intn(7)]
 		case x < 20 && strings.HasPrefix(mode, "memview"):
 			line = []string{"a 0x20000", "address 0x1000" + fmt.Sprint(r.Intn(9)), "d 1", "g 0", "u 1"}[r.Intn(5)]
+		case x < 34 && mode == "app":
+			line = listingAware(r, s)
 		default:
 			line = uichk.GenLine(r, listingLen(s))
 		}
@@ -157,6 +159,54 @@ func inProcess(c *mon.Case) {
 	if c.WantSample() && len(hist) >= 8 {
 		c.Sample(hist[:8])
 	}
+}
+
+// listingAware produces commands that are valid for the current listing: block moves
+// (both arguments are header lines, forwards and backwards), instruction moves inside one
+// block, and bounds/goto/find/entrypoint on lines near the end - the commands whose
+// bookkeeping survives from one command to the next.
+func listingAware(r *rand.Rand, s *uichk.Session) string {
+	ls, _, ok := disassemble.VerifListing(s.UI.VerifMode())
+	if !ok || len(ls) == 0 {
+		return "entrypoint"
+	}
+	var heads, ins []int
+	for i, l := range ls {
+		switch {
+		case strings.HasPrefix(strings.TrimSpace(l.Text), "Block"):
+			heads = append(heads, i)
+		case strings.TrimSpace(l.Text) != "":
+			ins = append(ins, i)
+		}
+	}
+	pick := func(xs []int) int {
+		if len(xs) == 0 {
+			return r.Intn(len(ls))
+		}
+		if r.Intn(3) == 0 {
+			return xs[len(xs)-1-r.Intn(minInt(3, len(xs)))] // near the end
+		}
+		return xs[r.Intn(len(xs))]
+	}
+	switch r.Intn(8) {
+	case 0, 1, 2:
+		return fmt.Sprintf("move %d %d", pick(heads), pick(heads))
+	case 3, 4:
+		a := pick(ins)
+		return fmt.Sprintf("move %d %d", a, a+r.Intn(5)-2)
+	case 5:
+		return fmt.Sprintf("bounds %d", pick(ins))
+	case 6:
+		return fmt.Sprintf("goto %d", pick(ins))
+	}
+	return []string{"entrypoint", "find Block", "find x1", "down 1", "up 1"}[r.Intn(5)]
+}
+
+func minInt(a, b int) int {
+	if a < b {
+		return a
+	}
+	return b
 }
 
 // topOfMemory replays the recorded limitation of the sparse memory (C03 finding)
